@@ -1,8 +1,7 @@
 /-
   C07, second sentence (gap rows) — part C: fused scaffolds.
     `fused_gap_rows`   every gap row of a fused scaffold is the join gap or a gap row of an input scaffold
-    `fused_gap_runs`   every run `(a, G, b)` of a fused scaffold: `G = [join gap]`, or an input run (up to reversal), or the
-                       fall-back rule of `missingRows`
+    `fused_gap_runs`   every run `(a, G, b)` of a fused scaffold: `G = [join gap]`, or an input run (up to reversal)
 -/
 import AgpTpf.Proofs.C07GapB
 import AgpTpf.Proofs.C07ChainD
@@ -10,41 +9,9 @@ namespace AgpTpf.C07
 open AgpTpf
 open AgpTpf.C11 (End leftFacing rightFacing facingEnds SameAdj)
 
-/-- the three possible sources of a run of an output scaffold -/
-def RunOK (input : List Scaffold) (found : List (Key × Found)) (g : Gap) (t : Run) : Prop :=
-  t.2.1 = [g] ∨ InputRun input t ∨ ∃ sc ∈ input, FallBackRun found sc.rows t
-
-/-- no FOUND contig lies between two left-over contigs of this scaffold (the fall-back rule of `missingRows` is never
-    used): bounded quantifiers, decidable -/
-def missingContiguousB (found : List (Key × Found)) (rows : List Row) : Bool :=
-  (List.range rows.length).all fun i => (List.range rows.length).all fun k => (List.range rows.length).all fun j =>
-    !(decide (i < k) && decide (k < j) && rowMissing found rows[i]? && rowMissing found rows[j]? && rowFound found rows[k]?)
-
-def MissingContiguous (found : List (Key × Found)) (rows : List Row) : Prop := missingContiguousB found rows = true
-
-instance (found : List (Key × Found)) (rows : List Row) : Decidable (MissingContiguous found rows) := by
-  unfold MissingContiguous; infer_instance
-
-/-- `MissingContiguous`, spelled out -/
-theorem missingContiguous_iff (found : List (Key × Found)) (rows : List Row) :
-    MissingContiguous found rows ↔
-      ∀ i k j, i < k → k < j → j < rows.length →
-        rowMissing found rows[i]? = true → rowMissing found rows[j]? = true → rowFound found rows[k]? = false := by
-  unfold MissingContiguous missingContiguousB
-  simp only [List.all_eq_true, List.mem_range, Bool.not_eq_eq_eq_not, Bool.not_true, Bool.and_eq_false_imp,
-    Bool.and_eq_true, decide_eq_true_eq, and_imp]
-  constructor
-  · intro h i k j h1 h2 h3 mi mj
-    exact h i (by omega) k (by omega) j h3 h1 h2 mi mj
-  · intro h i _ k _ j hj h1 h2 mi mj
-    exact h i k j h1 h2 hj mi mj
-
-theorem not_fallBack_of_contiguous (found : List (Key × Found)) (rows : List Row) (t : Run)
-    (hc : MissingContiguous found rows) : ¬ FallBackRun found rows t := by
-  rintro ⟨i, k, j, x, h1, h2, ri, rj, mi, mj, fk, _, _⟩
-  have hj : j < rows.length := (List.getElem?_eq_some_iff.mp rj).1
-  have := (missingContiguous_iff found rows).mp hc i k j h1 h2 hj mi mj
-  rw [this] at fk; cases fk
+/-- the two possible sources of a run of an output scaffold (model after fix 9be92a2) -/
+def RunOK (input : List Scaffold) (g : Gap) (t : Run) : Prop :=
+  t.2.1 = [g] ∨ InputRun input t
 
 /-! ### shapes -/
 
@@ -167,17 +134,17 @@ theorem fused_gap_runs (input : List Scaffold) (N0 : Nat) (g : Gap) (b : Build)
     (hc : CInv input N0 (some g) b) (hex : ∀ e ∈ b.extra, ExtraGapOK input b.found b.joinGap e)
     (hntg : StoreNTG b.store ∧ ExtraNTG b.extra)
     (hstr : ∀ sc ∈ input, ∀ q ∈ gapRuns sc.rows, StrandPM q.1 ∧ StrandPM q.2.2) :
-    ∀ s ∈ fuseByName b, ∀ t ∈ gapRuns s.rows, RunOK input b.found g t := by
+    ∀ s ∈ fuseByName b, ∀ t ∈ gapRuns s.rows, RunOK input g t := by
   intro s hs
-  refine (C01.fuseByName_all (fun rows => NoTerminalGap rows ∧ ∀ t ∈ gapRuns rows, RunOK input b.found g t) b ?_ ?_ s hs).1.2
+  refine (C01.fuseByName_all (fun rows => NoTerminalGap rows ∧ ∀ t ∈ gapRuns rows, RunOK input g t) b ?_ ?_ s hs).1.2
   · intro r hr _ hne
     have hn2 := noTerminalGap_toScaffoldRows _ (hntg.1 r hr)
     have hne' := C01.toScaffoldRows_ne_nil _ hne
-    have part : ∀ t ∈ gapRuns r.o.toScaffoldRows, RunOK input b.found g t := by
+    have part : ∀ t ∈ gapRuns r.o.toScaffoldRows, RunOK input g t := by
       intro t ht
       obtain ⟨sc, hsc, hI⟩ := (hc.store r hr).inv
       obtain ⟨q, hq, hm⟩ := toScaffoldRows_runs hI.content (hstr sc hsc) t ht
-      exact Or.inr (Or.inl ⟨sc, hsc, q, hq, hm⟩)
+      exact Or.inr ⟨sc, hsc, q, hq, hm⟩
     refine ⟨?_, fun built hbne hb => ?_⟩
     · rw [appendRows_nil]; exact ⟨hn2, part⟩
     · refine ⟨(C01.noTerminalGap_appendRows _ _ _ (Or.inr hb.1) hn2 hne').1, ?_⟩
@@ -190,12 +157,11 @@ theorem fused_gap_runs (input : List Scaffold) (N0 : Nat) (g : Gap) (b : Build)
   · intro e he hne
     have hn2 := hntg.2 e he
     obtain ⟨sc, hsc, _, hpred, hruns⟩ := hex e he
-    have part : ∀ t ∈ gapRuns e.1.rows, RunOK input b.found g t := by
+    have part : ∀ t ∈ gapRuns e.1.rows, RunOK input g t := by
       intro t ht
-      rcases hruns t ht with h | ⟨j, hj, h⟩ | h
-      · exact Or.inr (Or.inl ⟨sc, hsc, t, h, Or.inl ⟨rfl, rfl⟩⟩)
+      rcases hruns t ht with h | ⟨j, hj, h⟩
+      · exact Or.inr ⟨sc, hsc, t, h, Or.inl ⟨rfl, rfl⟩⟩
       · rw [hc.jg] at hj; cases hj; exact Or.inl h
-      · exact Or.inr (Or.inr ⟨sc, hsc, h⟩)
     refine ⟨⟨hn2, part⟩, fun built hbne hb => ?_⟩
     rw [hc.jg]
     obtain ⟨M, hM, hcase⟩ := gapsBeforeLeftover_cases g built hbne e.2
@@ -214,7 +180,7 @@ theorem fused_gap_runs (input : List Scaffold) (N0 : Nat) (g : Gap) (b : Build)
         have hface' : FacingEnd a prev := ea ▸ hface
         have hin := (hpred prev M hp).2 c hhd
         have hl' : leftFacing a = leftFacing prev := facingEnd_leftFacing a prev (hstr sc hsc _ hin).1 hface'
-        refine Or.inr (Or.inl ⟨sc, hsc, (prev, M, c), hin, Or.inl ⟨?_, rfl⟩⟩)
+        refine Or.inr ⟨sc, hsc, (prev, M, c), hin, Or.inl ⟨?_, rfl⟩⟩
         simp [facingEnds, hl']
 
 /-- `make_stats` completed ⇒ consecutive input fragments (gap rows between them or not) have strands ±1 -/
